@@ -18,8 +18,26 @@ fn opcode_len(kind: usize) -> usize {
     }
 }
 
+/// the named kinds with a path of `segs` segments instead of one
+fn with_path(t: Term, segs: usize, rooted: bool) -> Term {
+    let p = crate::props::c09::PathCase { rooted, segs: (0..segs).map(|i| format!("P{:03}", i)).collect() };
+    match t {
+        Term::Device(_, c) => Term::Device(p, c),
+        Term::Scope(_, c) => Term::Scope(p, c),
+        Term::ScopeRaw(_, c) => Term::ScopeRaw(p, c),
+        Term::Method(_, a, s, c) => Term::Method(p, a, s, c),
+        Term::PowerResource(_, l, o, c) => Term::PowerResource(p, l, o, c),
+        Term::Field(_, a, l, u, e) => Term::Field(p, a, l, u, e),
+        t => t,
+    }
+}
+
 pub fn check_object(kind: usize, n: u32) -> Option<Violation> {
-    let t = sized_object(kind, n);
+    check_object_path(kind, n, 1, false)
+}
+
+pub fn check_object_path(kind: usize, n: u32, segs: usize, rooted: bool) -> Option<Violation> {
+    let t = with_path(sized_object(kind, n), segs, rooted);
     let bytes = std::panic::catch_unwind(std::panic::AssertUnwindSafe(|| emit(&t))).ok()?;
     let ol = opcode_len(kind);
     let name = SIZED_KINDS[kind];
@@ -66,6 +84,27 @@ pub fn c07_objects(ctx: &Ctx) {
             jobs.push((k, (1 << 28) - 40));
         }
     }
+    // named objects: the name's own encoding (root char, dual / multi prefix + count) is part of
+    // the length
+    let mut pjobs: Vec<(usize, u32, usize, bool)> = Vec::new();
+    for k in [4usize, 5, 6, 7, 8, 12] {
+        for segs in [1usize, 2, 3, 4, 12, 255] {
+            for rooted in [false, true] {
+                for n in [0u32, 1, 30, 40, 45, 50, 52, 53, 54, 55, 56, 57, 58, 59, 60, 61, 62, 63, 64, 4000, 4060, 4070, 4080, 4090] {
+                    pjobs.push((k, n, segs, rooted));
+                }
+            }
+        }
+    }
+    let pres: Vec<((usize, u32, usize, bool), Violation)> = pjobs.par_iter().filter_map(|j| check_object_path(j.0, j.1, j.2, j.3).map(|v| (*j, v))).collect();
+    ctx.add_evals(pjobs.len() as u64);
+    ctx.add_nontrivial(pjobs.iter().map(|j| fingerprint(&("objp", j))));
+    let mut seenp = std::collections::HashSet::new();
+    for ((k, n, segs, rooted), v) in pres {
+        if seenp.insert(v.sig()) {
+            ctx.report("c07.object", json!({"case": {"object": k, "body": n, "segments": segs, "rooted": rooted}}), vec![v]);
+        }
+    }
     let res: Vec<((usize, u32), Violation)> = jobs.par_iter().filter_map(|(k, n)| check_object(*k, *n).map(|v| ((*k, *n), v))).collect();
     ctx.add_evals(jobs.len() as u64);
     ctx.add_engine("directed:c07.objects", jobs.len() as u64);
@@ -84,5 +123,7 @@ pub fn c07_objects(ctx: &Ctx) {
 pub fn c07_replay(case: &serde_json::Value) -> Vec<Violation> {
     let k = case["object"].as_u64().unwrap_or(0) as usize;
     let n = case["body"].as_u64().unwrap_or(0) as u32;
-    check_object(k, n).into_iter().collect()
+    let segs = case["segments"].as_u64().unwrap_or(1) as usize;
+    let rooted = case["rooted"].as_bool().unwrap_or(false);
+    check_object_path(k, n, segs, rooted).into_iter().collect()
 }
